@@ -202,6 +202,16 @@ def run(chk):
     pool = programs + sim
     for _ in range(1500 if chk.quick else 30000):
         pairs.append((rng.choice(pool), rng.choice(pool), rng.choice(list(PREDS))))
+    # stratified pairs: both methods use the same kind of construct (conditionals -> both create <cond> flags, loops ->
+    # both use the loop identifier, calls, element assignments), which uniform sampling of pairs almost never produces
+    feats = {"if": lambda c: c["op"] == "if", "loop": lambda c: bool(c.get("loops")), "acall": lambda c: c["op"] == "acall",
+             "sub": lambda c: bool(c.get("sub")), "yield": lambda c: c["op"] == "yield"}
+    for fname, has in sorted(feats.items()):
+        sel = [p for p in pool if any(has(c) for c in p)]
+        if not sel:
+            raise tlc.MachineryError("no generated program has feature %s" % fname)
+        for _ in range(150 if chk.quick else 3000):
+            pairs.append((rng.choice(sel), rng.choice(sel), rng.choice(["default", "default", "all", "only-a"])))
     cases, meta = [], []
     for a, b, pn in pairs:
         fc = fuse_case(a, b, pn)
